@@ -294,6 +294,118 @@ fn s_cases(tier: Tier) -> Vec<SampCase> {
     out
 }
 
+// ---------------------------------------------------------------------------------------------
+// ring switching / split / merge across backends
+// ---------------------------------------------------------------------------------------------
+
+#[derive(Clone, Debug, Serialize, Deserialize)]
+pub struct RingCmp {
+    pub op: String,
+    pub n_in: usize,
+    pub n_out: usize,
+    pub size: usize,
+}
+
+fn ring_out<B: Bk>(c: &RingCmp, seed: u64) -> Vec<u8>
+where
+    Module<B>: HalAll<B>,
+{
+    use poulpy_hal::layouts::ZnxViewMut;
+    let mut rng = pvc_engine::rng::Rng::new(seed, fnv(format!("{:?}", c).as_bytes()));
+    let big = c.n_in.max(c.n_out);
+    let small = c.n_in.min(c.n_out);
+    let m = B::module(big.max(8));
+    let mb = B::module(big);
+    let mut out = vec![];
+    match c.op.as_str() {
+        "switch_ring" => {
+            let mut a = VecZnx::alloc(c.n_in, 1, c.size);
+            for x in a.raw_mut() {
+                *x = rng.digit(50);
+            }
+            let mut r = VecZnx::alloc(c.n_out, 1, c.size);
+            pvc_engine::rng::garbage(&mut r.data, 0);
+            m.vec_znx_switch_ring(&mut r, 0, &a, 0);
+            out.extend_from_slice(&r.data[..c.n_out * c.size * 8]);
+        }
+        "split_ring" => {
+            let parts = big / small;
+            let mut a = VecZnx::alloc(big, 1, c.size);
+            for x in a.raw_mut() {
+                *x = rng.digit(50);
+            }
+            let mut rs: Vec<VecZnx<Vec<u8>>> = (0..parts).map(|_| VecZnx::alloc(small, 1, c.size)).collect();
+            let mut s = B::scratch(mb.vec_znx_split_ring_tmp_bytes() + 64);
+            mb.vec_znx_split_ring(&mut rs, 0, &a, 0, B::borrow(&mut s));
+            for r in &rs {
+                out.extend_from_slice(&r.data[..small * c.size * 8]);
+            }
+        }
+        _ => {
+            let parts = big / small;
+            let ps: Vec<VecZnx<Vec<u8>>> = (0..parts)
+                .map(|_| {
+                    let mut v = VecZnx::alloc(small, 1, c.size);
+                    for x in v.raw_mut() {
+                        *x = rng.digit(50);
+                    }
+                    v
+                })
+                .collect();
+            let mut r = VecZnx::alloc(big, 1, c.size);
+            pvc_engine::rng::garbage(&mut r.data, 0);
+            let mut s = B::scratch(mb.vec_znx_merge_rings_tmp_bytes() + 64);
+            mb.vec_znx_merge_rings(&mut r, 0, &ps, 0, B::borrow(&mut s));
+            out.extend_from_slice(&r.data[..big * c.size * 8]);
+        }
+    }
+    out
+}
+
+fn cmp_r<B1: Bk, B2: Bk>(c: &RingCmp, seed: u64, rec: &mut Rec)
+where
+    Module<B1>: HalAll<B1>,
+    Module<B2>: HalAll<B2>,
+{
+    let x = pvc_engine::guarded(|| ring_out::<B1>(c, seed));
+    let y = pvc_engine::guarded(|| ring_out::<B2>(c, seed));
+    rec.evals(2);
+    let pair = format!("{}|{}", B1::NAME, B2::NAME);
+    match (x, y) {
+        (Ok(x), Ok(y)) => {
+            if x != y {
+                rec.fail(json!({"op": c.op, "backend": pair, "kind": "backend_mismatch", "case": c}));
+            }
+            rec.outcome(fnv(&x));
+        }
+        (Err(_), Err(_)) => rec.add("both_panicked", 1),
+        (a, b) => rec.fail(json!({"op": c.op, "backend": pair, "kind": "panic_mismatch", "case": c, "panic": [a.err(), b.err()]})),
+    }
+    rec.distinct(fnv(format!("{:?}{}", c, pair).as_bytes()));
+    rec.sample(|| serde_json::to_value(c).unwrap());
+}
+
+fn r_cases() -> Vec<RingCmp> {
+    let mut out = vec![];
+    for big in [2usize, 4, 8, 16, 32, 64] {
+        for ratio in [1usize, 2, 4, 8, 16] {
+            if big % ratio != 0 || big / ratio == 0 {
+                continue;
+            }
+            let small = big / ratio;
+            for size in 1..=3usize {
+                out.push(RingCmp { op: "switch_ring".into(), n_in: big, n_out: small, size });
+                out.push(RingCmp { op: "switch_ring".into(), n_in: small, n_out: big, size });
+                if ratio > 1 {
+                    out.push(RingCmp { op: "split_ring".into(), n_in: big, n_out: small, size });
+                    out.push(RingCmp { op: "merge_rings".into(), n_in: small, n_out: big, size });
+                }
+            }
+        }
+    }
+    out
+}
+
 pub fn run_hal(run: &mut Run) {
     let seed = run.seed;
     let tier = run.tier;
@@ -328,6 +440,12 @@ pub fn run_hal(run: &mut Run) {
         run.family("sampling/ntt120-ref|ntt120-avx", rule_s, scs.clone(), |c, rec| cmp_s::<NTT120Ref, NTT120Avx>(c, rec));
     }
     run.family("sampling/fft64-ref|ntt120-ref", rule_s, scs, |c, rec| cmp_s::<FFT64Ref, NTT120Ref>(c, rec));
+    let rule_r = "switch_ring (both directions, ratios 1..16 incl. degrees below the SIMD width), split_ring, merge_rings: byte comparison";
+    if host_has_avx() {
+        run.family("ring/fft64-ref|fft64-avx", rule_r, r_cases(), |c, rec| cmp_r::<FFT64Ref, FFT64Avx>(c, seed, rec));
+        run.family("ring/ntt120-ref|ntt120-avx", rule_r, r_cases(), |c, rec| cmp_r::<NTT120Ref, NTT120Avx>(c, seed, rec));
+    }
+    run.family("ring/fft64-ref|ntt120-ref", rule_r, r_cases(), |c, rec| cmp_r::<FFT64Ref, NTT120Ref>(c, seed, rec));
 }
 
 pub fn replay(run: &mut Run, d: &Value) -> bool {
@@ -342,6 +460,9 @@ pub fn replay(run: &mut Run, d: &Value) -> bool {
             } else if fam.starts_with("dft_domain/") {
                 let c: OpCase = serde_json::from_value(d["case"].clone()).unwrap();
                 run.single(&fam, "replay", |rec| cmp_d::<$A, $B>(&c, seed, rec));
+            } else if fam.starts_with("ring/") {
+                let c: RingCmp = serde_json::from_value(d["case"].clone()).unwrap();
+                run.single(&fam, "replay", |rec| cmp_r::<$A, $B>(&c, seed, rec));
             } else {
                 let c: SampCase = serde_json::from_value(d["case"].clone()).unwrap();
                 run.single(&fam, "replay", |rec| cmp_s::<$A, $B>(&c, rec));
